@@ -450,7 +450,8 @@ def _division_connected(
     if use_graph_primitive:
         for i in range(num_regions):
             region = solver.bool_array(n)
-            solver.ensure(region == (division == i))
+            # element-wise, so that `division` may be a plain sequence as documented
+            solver.ensure([region[j] == (division[j] == i) for j in range(n)])
             _active_vertices_connected(solver, region.data, graph, use_graph_primitive=True)
 
             if not allow_empty_group:
